@@ -583,3 +583,27 @@ def _yaml_all(value, ty):
 
 CUSTOM['pane.io:from_yaml_all.bounded'] = lambda m: [(_yaml_all, ['value', 'ty'], (v, ty), f'from_yaml_all({v!r})') for v, ty in
                                                      [([1, 2, 3], int), ([1, None, 3], t.Optional[int]), ([None, None], type(None)), ([{'n': 1}, {'n': 2}], PReq), ([], int)]]
+
+
+# ---- C08: error trees ----------------------------------------------------------------------------------------------------------
+def _render_instances(m):
+    out, seen = [], set()
+    for conv, origin in harvest():
+        for v in VALUES:
+            try:
+                tree = conv.collect_errors(v)
+            except Exception:
+                continue
+            if tree is None:
+                continue
+            key = repr(tree)[:300]
+            if key in seen:
+                continue
+            seen.add(key)
+            out.append((str, ['tree'], (tree,), f'str(error tree of {origin} on {v!r})'[:200]))
+    return out
+
+
+CUSTOM['pane.errors:render.bounded'] = _render_instances
+TYPES.extend([t.Union[PAlias, int], t.Union[t.Annotated[int, Condition(raising_pred, 'raising')], str], t.List[t.Union[PAlias, PReq]]])
+VALUES.extend([{'W': 1, 'width': 2}, [{'W': 1, 'width': 2}], [{'n': 'x'}]])
